@@ -43,7 +43,10 @@ def dec_varint(buf: bytes, pos: int) -> Tuple[int, int]:
         pos += 1
         result |= (b & 0x7F) << shift
         if not b & 0x80:
-            return result & ((1 << 64) - 1), pos
+            if result >> 64:
+                # a tenth byte above 0x01: decoders differ (wrap, reject); never one of the enforced kinds
+                raise WireError("varint overflows 64 bits")
+            return result, pos
         shift += 7
 
 
